@@ -90,7 +90,7 @@ PROBES = {
     'xwiki_macro': '{{macro}}\nbody\n{{/macro}}\n',
     'hr': '***\n---\n___\n',
     # benign custom tokens: must be literal text outside their context
-    'custom': '{{x}} and {{*y*}}\n\n!!! bang *line*\n\npara\n!!! interrupts?\n',
+    'custom': '{{x}} and {{*y*}} <<twin *t*>>\n\n!!! bang *line*\n\npara\n!!! interrupts?\n',
     # edge
     'empty': '',
     'blank': '\n',
@@ -104,6 +104,29 @@ PROBES = {
     'toc_doc': '# T\n## a *b*\n### c `d`\n#### e\n## [l](/u)\n',
     'toc_refs': '## \\[ref\\] and \\[foo\\]\n### plain *em* \\`c\\`\n',
 }
+
+# "atoms": strings whose interpretation depends on WHERE they stand (which unescaping / escaping pass sees them), each put
+# into every syntactic position. Any memoisation keyed on the string alone shows up as a pair (atom at position p, then the
+# same atom at position q).
+ATOMS = ['&copy', '&amp', '&#12345678;', '&lt;b&gt', 'a\\*b', 'x%20y', '\u00f6', '<b>']
+ATOM_POSITIONS = {
+    'def_dest': '[r]: {a}\n\n[r]\n',
+    'def_title': '[r]: /u "{a}"\n\n[r]\n',
+    'inline_dest': '[t]({a})\n',
+    'inline_title': '[t](/u "{a}")\n',
+    'image_src': '![t]({a})\n',
+    'image_title': '![t](/u "{a}")\n',
+    'fence_info': '```{a}\nx\n```\n',
+    'fence_info_after_text': 'p\n\n~~~ {a}\nx\n~~~\n',
+    'autolink': '<http://h/{a}>\n',
+    'code_span': '`{a}`\n',
+    'text': '{a}\n',
+    'heading': '# {a}\n',
+    'cell': 'h\n-\n{a}\n',
+    'html_attr': '<a href="{a}">\n',
+}
+ATOM_PROBES = {'atom%d_%s' % (i, pos): tpl.replace('{a}', a)
+               for i, a in enumerate(ATOMS) for pos, tpl in sorted(ATOM_POSITIONS.items())}
 
 # one sentinel per row of the state table (systematic sweep uses these right after every fault variant)
 SENTINELS = ['setext2', 'plain', 'code', 'ref_shortcut', 'ref_undefined', 'entity_def', 'headings',
